@@ -49,6 +49,10 @@ func parseReach(m *Module) []*ssa.Function {
 }
 
 func runC06(c *Ctx) {
+	c10LengthWord(c, c.Root(), "C06.faithful")
+	c15DecodeResult(c, c.Root(), "C06.faithful")
+	c06InvalidRecordRejects(c, c.Root(), "C06.faithful")
+
 	m := c.Root()
 	r := c.R
 	parse := m.Func("internal/counter", "Parse")
@@ -344,3 +348,63 @@ func retOrdinal(fn *ssa.Function, ret *ssa.Return) int {
 }
 
 func allocSuffix(string) string { return "" }
+
+// c06InvalidRecordRejects: once a record of a chain is invalid (entryAt reports !ok: an offset
+// or a length that does not fit the data), Parse fails — it does not keep what it has read so
+// far. A truncated or damaged file must stay "unreadable" for the uploader, which leaves
+// unreadable files alone and deletes the ones it could fold (C07).
+func c06InvalidRecordRejects(c *Ctx, m *Module, rule string) {
+	r := c.R
+	parse := m.Func("internal/counter", "Parse")
+	n := 0
+	for _, cs := range callsIn(parse, "(*internal/counter.mappedFile).entryAt") {
+		cl, ok := cs.(*ssa.Call)
+		if !ok {
+			continue
+		}
+		var okV ssa.Value
+		for _, u := range referrers(cl) {
+			if e, isE := u.(*ssa.Extract); isE && e.Index == 3 {
+				okV = e
+			}
+		}
+		var starts []walkState
+		for _, b := range parse.Blocks {
+			ifi, isIf := b.Instrs[len(b.Instrs)-1].(*ssa.If)
+			if !isIf || okV == nil {
+				continue
+			}
+			f := normFact(ifi.Cond, true)
+			if f.Cond != okV {
+				continue
+			}
+			fail := b.Succs[1]
+			if !f.Pol {
+				fail = b.Succs[0]
+			}
+			starts = append(starts, walkState{b, fail, 0})
+		}
+		n++
+		okRule := len(starts) > 0
+		where := "the validity of the record is not tested"
+		if okRule {
+			w := walkWithout(starts, func(in ssa.Instruction) bool {
+				ret, isRet := in.(*ssa.Return)
+				return isRet && len(ret.Results) == 2 && isNilConst(ret.Results[1])
+			}, func(in ssa.Instruction) bool {
+				_, isCall := in.(*ssa.Call)
+				return isCall && in.(*ssa.Call) == cl // the next record: a new validity test
+			})
+			// reaching the next entryAt, or a successful return, without an error return in between
+			w2 := walkWithout(starts, func(in ssa.Instruction) bool { return in == ssa.Instruction(cl) }, func(ssa.Instruction) bool { return false })
+			if w != nil {
+				okRule, where = false, "a successful return is reached at "+m.Pos(w.Pos())
+			} else if w2 != nil {
+				okRule, where = false, "the walk goes on to the next record"
+			}
+		}
+		r.Check(rule, "Parse/an invalid record makes the file unreadable", m.Pos(cl.Pos()), okRule,
+			"after entryAt reports an invalid record, Parse must return an error: "+where)
+	}
+	r.Check(rule, "Parse/record reads enumerated", m.Pos(parse.Pos()), n >= 1, fmt.Sprintf("%d", n))
+}
